@@ -31,7 +31,7 @@ def dumpReq (e : SrvEnv) (s : ReqSt) (rc : String) : String :=
   let sn := match s.serverName with
             | .authority => "auth" | .nameBuf => "buf" | .conf => "other" | .h2r _ => "h2r"
   s!"state={s.state} st={s.httpStatus} x={s.x0}:{s.x1}:{s.x2} m={s.method} v={s.version} hm={b01 s.handlerModule}" ++
-  " pctx=" ++ String.join (s.pluginCtx.map fun c => b01 c.isSome) ++
+  " pctx=" ++ String.join ((List.range (e.nPlugins + 1)).map fun i => b01 (pctxGet s.toReqLive i).isSome) ++
   s!" con=1 civ={s.conValid} cc=" ++ String.intercalate "," (s.condCache.map fun c => s!"{c.result}:{c.localResult}") ++
   s!" conf={if confDef then "def" else "mod"} po={s.conf.parseopts} mrfs={s.conf.maxRequestFieldSize} srb={s.conf.streamRequestBody}" ++
   s!" qhl={s.rqstHeaderLen} qht={bitsStr s.rqstHtags} qh={hlistStr s.rqstHeaders true}" ++
@@ -101,8 +101,7 @@ def applySpec (w : World) (tok : String) : Option World :=
     | "st" => num.bind fun n => setR { r with httpStatus := n }
     | "state" => num.bind fun n => setR { r with state := n.toNat }
     | "hm" => num.bind fun n => setR { r with handlerModule := n ≠ 0 }
-    | "uc" => setR { r with pluginCtx := (List.range r.pluginCtx.length).map fun i =>
-                                           if i = 0 then r.pluginCtx.getD 0 none else some [] }
+    | "uc" => setR (r.onLive fun l => (List.range srvEnv.nPlugins).foldl (fun l i => pctxSet l (i + 1) []) l)
     | "qh" => (kvList v).bind fun l => setR (r.onLive fun c => l.foldl (fun s kv => rqstSet s (hid (kv.1.map toLower)) kv.1 kv.2) c)
     | "host" => bytes.bind fun b =>
         setR (r.onLive fun c =>
